@@ -30,9 +30,17 @@ Section Total.
   Qed.
 End Total.
 
+Lemma int_new_session ast i : int_new Rops ast = IOk i -> session i.
+Proof.
+  unfold int_new. destruct (add_ast Rops int_empty ast) as [[u|e|w] i'] eqn:E; try discriminate.
+  intro H. injection H as <-. destruct u. exact (S_add int_empty ast i' S_empty E).
+Qed.
+
+(** for every interpreter reachable through the public session interfaces ([Int::new], [add_ast],
+    [ast_changes] + [append_int], [xor]) *)
 Definition C12_accepted_runs_stmt : Prop :=
-  forall (ast : list (@node R)) (i : @int R),
-    int_new Rops ast = IOk i ->
+  (forall ast i, int_new Rops ast = IOk i -> session i) /\
+  forall (i : @int R), session i ->
     let M := N.ones (lenN (i_qreg i)) in
     (forall b, In b (blocks (i_ops i)) -> inside (multi_act_on (fst b)) M) /\
     inside (multi_act_on (open (i_ops i))) M /\
@@ -40,7 +48,8 @@ Definition C12_accepted_runs_stmt : Prop :=
 
 Lemma C12_accepted_runs_proof : C12_accepted_runs_stmt.
 Proof.
-  intros ast i Hi M. destruct (int_new_ok ast i Hi) as [Hb Ho]. split; [|split].
+  split; [exact int_new_session|].
+  intros i Hi M. destruct (proj1 session_changes_ok i Hi) as [Hb Ho]. split; [|split].
   - intros b Hin. rewrite Forall_forall in Hb. apply sup_act_on. exact (proj2 (Hb b Hin)).
   - apply sup_act_on. exact (proj2 Ho).
   - intro draws. apply sym_finish_total.
